@@ -318,6 +318,45 @@ func lpResetGuarded(fd *ast.FuncDecl) (found bool, guarded bool) {
 	return
 }
 
+// a select arm may begin with `if ctx.Err() != nil { ...; return }`: (it does, the block calls
+// sched.Reset(), the first statement is an if at all)
+func lpCtxCheck(body []ast.Stmt) (checks bool, resets bool, isIf bool) {
+	if len(body) == 0 {
+		return false, false, false
+	}
+	is, ok := body[0].(*ast.IfStmt)
+	if !ok {
+		return false, false, false
+	}
+	l, op, r, okc := lpCmp(is.Cond)
+	if !okc || l != "ctx.Err()" || op != token.NEQ || r != "nil" || is.Else != nil || is.Init != nil || len(is.Body.List) == 0 {
+		die("startExecutionLoop: a select arm starts with an if statement that is not `if ctx.Err() != nil {`")
+	}
+	ret, ok := is.Body.List[len(is.Body.List)-1].(*ast.ReturnStmt)
+	if !ok || len(ret.Results) != 0 {
+		die("startExecutionLoop: the ctx.Err() check of a select arm does not end in return")
+	}
+	for _, s := range is.Body.List[:len(is.Body.List)-1] {
+		es, ok := s.(*ast.ExprStmt)
+		if !ok {
+			die("startExecutionLoop: unexpected statement in the ctx.Err() check of a select arm")
+		}
+		c, ok := es.X.(*ast.CallExpr)
+		if !ok {
+			die("startExecutionLoop: unexpected statement in the ctx.Err() check of a select arm")
+		}
+		n := callName(c.Fun)
+		switch {
+		case n == "sched.Reset":
+			resets = true
+		case strings.HasPrefix(n, "sched.logger."), n == "timer.Stop":
+		default:
+			die("startExecutionLoop: the ctx.Err() check of a select arm calls %s", n)
+		}
+	}
+	return true, resets, true
+}
+
 func genLoop(o *out) {
 	f := parse("quartz/scheduler.go")
 	o.line("From Coq Require Import ZArith String List.")
@@ -442,13 +481,19 @@ func genLoop(o *out) {
 		die("startExecutionLoop: expected a select with three cases")
 	}
 	tickFetches, tickSets, tokRecomputes, doneReturns := false, false, false, false
+	tickChecksCtx, tokChecksCtx, tokGivesBack := false, false, false
 	seen := map[string]bool{}
 	for _, c := range sel.Body.List {
 		cc := c.(*ast.CommClause)
 		switch lpCommRecv(cc) {
 		case "timer.C":
 			seen["tick"] = true
-			for _, s := range cc.Body {
+			body := cc.Body
+			if chk, _, ok := lpCtxCheck(body); ok {
+				tickChecksCtx = chk
+				body = body[1:]
+			}
+			for _, s := range body {
 				if as, ok := s.(*ast.AssignStmt); ok && len(as.Lhs) == 1 && lpRender(as.Lhs[0]) == "fetchFailed" && len(as.Rhs) == 1 {
 					if u, ok := unparen(as.Rhs[0]).(*ast.UnaryExpr); ok && u.Op == token.NOT && lpIsCall(u.X, "sched.executeAndReschedule") != nil {
 						tickSets = true
@@ -462,8 +507,13 @@ func genLoop(o *out) {
 			tickFetches = n == 1
 		case "sched.interrupt":
 			seen["tok"] = true
+			body := cc.Body
+			if chk, gives, ok := lpCtxCheck(body); ok {
+				tokChecksCtx, tokGivesBack = chk, gives
+				body = body[1:]
+			}
 			tokRecomputes = true
-			for _, s := range cc.Body {
+			for _, s := range body {
 				es, ok := s.(*ast.ExprStmt)
 				if !ok {
 					tokRecomputes = false
@@ -501,6 +551,9 @@ func genLoop(o *out) {
 	o.line("Definition select_tick_fetches : bool := %s.", coqBool(tickFetches))
 	o.line("Definition select_tick_sets_fetch_failed : bool := %s.", coqBool(tickSets))
 	o.line("Definition select_interrupt_recomputes : bool := %s.", coqBool(tokRecomputes))
+	o.line("Definition select_tick_checks_ctx : bool := %s.", coqBool(tickChecksCtx))
+	o.line("Definition select_interrupt_checks_ctx : bool := %s.", coqBool(tokChecksCtx))
+	o.line("Definition select_interrupt_gives_token_back : bool := %s.", coqBool(tokGivesBack))
 	o.line("Definition select_done_returns : bool := %s.", coqBool(doneReturns))
 	o.line("Definition loop_defers_wg_done : bool := %s.", coqBool(defersDone))
 
